@@ -83,6 +83,10 @@ const (
 	// of the specification this allows to decrease hardware complexity as
 	// in all opcodes the 31 bit is the sign bit.
 	immTypeJ
+	// immTypeShamt is an unsigned shift amount encoded in bits [20..26) of an
+	// instruction. Immediate shifts of 32 bit values use just 5 bits, but
+	// their opcodes require bit 25 to be zero.
+	immTypeShamt
 )
 
 // parseBitRange parses bits in range [begin, end) in value into lowest bytes of
@@ -162,6 +166,8 @@ func (t immType) parseValue(value uint32) (int32, bool) {
 		unsigned := (first << 1) | (second << 11) | (third << 12) | (sign << 20)
 		val := signExtend(unsigned, 20)
 		return val, true
+	case immTypeShamt:
+		return int32(parseBitRange(value, 20, 26)), true
 	default:
 		panic(fmt.Sprintf("unknown immediate type: %v", t))
 	}
